@@ -889,6 +889,8 @@ class Interp:
             raise Undecided("boolean used as number")
         if isinstance(v, (int, float, Fraction)):
             return Lin.num(Fraction(v).limit_denominator(10 ** 12) if isinstance(v, float) else v)
+        if v is None or isinstance(v, (str, Str, Lst, Tup, DictVal, SetVal)):
+            raise PyRaise("TypeError", node)  # arithmetic / ordering on something that is certainly not a number
         raise Undecided("numeric value expected, got %r%s" % (v, (" at " + norm(node)[:60]) if node is not None else ""))
 
     def compare(self, op, a, b, node=None) -> bool:
@@ -1692,6 +1694,8 @@ class Interp:
                 return Tup(base.items[lo:hi:st])
             if isinstance(base, str):
                 return base[lo:hi:st]
+            if isinstance(base, Lin) or base is None or isinstance(base, bool):
+                raise PyRaise("TypeError", e)  # a number is not subscriptable
             raise Undecided("slice of %r" % (base,))
         k = self.eval(e.slice, env)
         if isinstance(k, SliceVal):
